@@ -1,7 +1,7 @@
 #!/bin/bash
 # C14 is built against a copy of maptile / maptile/tilecover whose map ranges are owned by the harness (overlay only).
 set -e
-cd /verif
+cd "$(dirname "$(readlink -f "$0")")/../.."
 go build -o .work/bin/instr ./tools/instr
 .work/bin/instr -out .work/c14 -maprange maptile/tilecover -maprange maptile 2>.work/c14.instr.log || { cat .work/c14.instr.log; exit 1; }
 go build -tags verif -overlay .work/c14/overlay.json -o "$1" ./checks/c14
